@@ -124,15 +124,26 @@ def loop_transfer(prog, fn, v, lp, tracked):
     return out
 
 
-def fn_paths(fn):
-    """acyclic paths of a loop-free function from entry to its return blocks"""
-    if fn.loops():
+def fn_paths(fn, summarise_loops=False):
+    """acyclic paths of a function from entry to its return blocks.  With summarise_loops, a natural loop is one step: the path
+    enters at the header and continues at one of the loop's exit edges (the block list then holds ("loop", header) — what the loop
+    did to the state is not executed here; the caller reads the loop-modified locals from the ordinary, loop-aware terms)."""
+    loops = fn.loops()
+    if loops and not summarise_loops:
         raise Unbounded("closure body contains a loop")
+    outer = [lp for lp in loops if not any(o is not lp and lp["body"] < o["body"] for o in loops)]
+    by_header = {lp["header"]: lp for lp in outer}
     out = []
 
     def walk(b, blocks, edges):
         if len(out) > PATH_LIMIT:
             raise Unbounded("more than %d paths" % PATH_LIMIT)
+        if b in by_header:
+            lp = by_header[b]
+            exits = [(s_, t, lab) for s_ in sorted(lp["body"]) for (t, lab) in fn.succs()[s_] if t not in lp["body"]]
+            for (s_, t, lab) in exits:
+                walk(t, blocks + [("loop", b)], edges + [(s_, t, lab)])
+            return
         blocks = blocks + [b]
         succ = fn.succs()[b]
         if not succ:
@@ -141,6 +152,24 @@ def fn_paths(fn):
         for (t, lab) in succ:
             walk(t, blocks, edges + [(b, t, lab)])
     walk(0, [], [])
+    return out
+
+
+def loop_clobbers(fn, lp):
+    """locals whose value a loop may change: assigned in its body, written by a call there, or borrowed mutably there"""
+    out = set()
+    for b in lp["body"]:
+        blk = fn.blocks[b]
+        for s in blk.stmts:
+            if s["k"] == "assign":
+                out.add(s["place"]["l"])
+                rv = s["rv"]
+                if rv.get("k") == "ref" and rv.get("mut") and rv.get("place"):
+                    out.add(rv["place"]["l"])
+        t = blk.term
+        if t["k"] == "call":
+            if t.get("dest") is not None:
+                out.add(t["dest"]["l"])
     return out
 
 
@@ -303,8 +332,10 @@ def function_cases(prog, fn, argsub=None):
     *on that path* (a flag assigned differently in two arms has, on each path, the value of the arm taken) and the returned value:
     [{facts: [fact], value: term}]"""
     from .guards import switch_facts
+    from .lib import accumulation_sites
     out = []
-    for (blocks, edges, end) in fn_paths(fn):
+    loops = {lp["header"]: lp for lp in fn.loops()}
+    for (blocks, edges, end) in fn_paths(fn, summarise_loops=True):
         if end != "return":
             continue
         env = {}
@@ -312,6 +343,12 @@ def function_cases(prog, fn, argsub=None):
         facts = []
         taken = {(e[0]): e for e in edges}
         for b in blocks:
+            if isinstance(b, tuple):
+                # a loop taken as one step: whatever it may have changed is read from the loop-aware terms from here on
+                lp = loops[b[1]]
+                for l in loop_clobbers(fn, lp) | set(accumulation_sites(fn, lp)):
+                    env.pop(l, None)
+                continue
             blk = fn.blocks[b]
             for i, s in enumerate(blk.stmts):
                 if s["k"] != "assign":
